@@ -1,28 +1,11 @@
 """Helpers shared by the window check parts (C13_window, C09_window, C10_window, C01_window, C11_window)."""
 from __future__ import annotations
 import copy
-from contextlib import contextmanager
 
 from . import core, history, streams
 from .compare import close, impl_val
 from .model import T, run_model
 from .families import window as W
-
-
-@contextmanager
-def sanitized_histories():
-    """streams.hist_corr draws its histories from history.gen_history; inside this block every
-    drawn history is passed through families.window.sanitize (generator merge arguments -> lists,
-    D2-aliasing merges of WindowedMeanSquaredError dropped; see its docstring)."""
-    orig = history.gen_history
-
-    def gen(rng, e, cfg, **kw):
-        return W.sanitize(e, cfg, orig(rng, e, cfg, **kw))
-    history.gen_history = gen
-    try:
-        yield
-    finally:
-        history.gen_history = orig
 
 
 class SubCtx:
@@ -50,20 +33,19 @@ def fixed_variant(e):
 
 
 def corr_asis_or_fixed(ctx, ents, name, **kw):
-    """History correspondence against the faithful (V_asis) models; a class that disagrees is
+    """History correspondence against the faithful models of the current code (V_code: cursor
+    rewound by reset(), not saved / loaded); a class that disagrees is
     re-run against its V_fixed model (cursor saved / loaded / reset with the registered states):
     agreement there means the tree has been repaired, and the obligation is discharged by the
-    V_fixed theorems instead.  Returns {class name: 'asis' | 'fixed' | None}."""
+    V_fixed theorems instead.  Returns {class name: 'code' | 'fixed' | None}."""
     sub = SubCtx(ctx)
-    with sanitized_histories():
-        bad = streams.hist_corr(sub, ents, name=name, **kw)
-    verdict = {e.name: "asis" for e in ents if e.name not in bad}
+    bad = streams.hist_corr(sub, ents, name=name, **kw)
+    verdict = {e.name: "code" for e in ents if e.name not in bad}
     detail = {k: v for k, v in bad.items()}
     retry = [fixed_variant(e) for e in ents if e.name in bad]
     if retry:
         sub2 = SubCtx(ctx)
-        with sanitized_histories():
-            bad2 = streams.hist_corr(sub2, retry, name=name + " (V_fixed models)", **kw)
+        bad2 = streams.hist_corr(sub2, retry, name=name + " (V_fixed models)", **kw)
         for e in retry:
             verdict[e.name] = None if e.name in bad2 else "fixed"
         sub.obligations += [o for o in sub2.obligations if "extraction" in o["name"]]
@@ -76,7 +58,7 @@ def corr_asis_or_fixed(ctx, ents, name, **kw):
             ctx.oblige(o["name"], o["ok"], o["file"], o["detail"])
     for cls, v in verdict.items():
         if v == "fixed":
-            ctx.notes.append(f"{cls}: the code matches the V_fixed model (cursor handled like a registered state): D5 repaired")
+            ctx.notes.append(f"{cls}: the code matches the V_fixed model (cursor saved and loaded like a registered state): D5-load repaired")
     return verdict, detail
 
 
